@@ -17,12 +17,20 @@ def contains(v, x, depth=0):
 
 
 def poll_variant(E, path):
-    """Ready / Pending of a state function's return (Poll, or a tuple whose first element is Poll)"""
+    """Ready / Pending of a state function's return (Poll, a tuple whose first element is Poll, or a private struct
+    with named fields that carries the Poll - `SendOutcome { poll, returned, wake }`)"""
     v = path.ret
     if v is PANIC or v is None:
         return None
     if v[0] == 'tuple' and v[1]:
         v = v[1][0]
+    if v[0] == 'agg' and v[1] in E.F.adts and E.F.adts[v[1]]['kind'] == 'struct' and not E.F.adts[v[1]].get('reachable'):
+        for _n, fv in v[3]:
+            if fv[0] == 'agg' and fv[1] == POLL:
+                return fv[2]
+            k_ = E.variant_known(path.facts, fv) if fv[0] in ('ret', 'init', 'field') else None
+            if k_ and k_[0] == 'eq' and k_[1] in ('Ready', 'Pending'):
+                return k_[1]
     if v[0] == 'agg' and v[1] == POLL:
         return v[2]
     k = E.variant_known(path.facts, v)
@@ -469,9 +477,12 @@ def wrapper_discipline(C, R, cfg, state_adts, rule):
     # one lock acquisition per public operation: a decision taken under one acquisition and acted upon under the
     # next is a check-then-act race for every other task (whether or not the first acquisition mutates anything)
     mods = set(sp.rsplit('::', 1)[0] + '::' for sp in state_adts)
+    from rl import is_private_helper
     double_lock = []
     for fn in F.raw['fns']:
         if fn['kind'] == 'closure' or not any(fn['path'].lstrip('<').startswith(m_) for m_ in mods):
+            continue
+        if fn.get('in_trait') and is_private_helper(F, CG, fn):
             continue
         for path in E.run(fn['path']):
             if path.exit != 'return':
@@ -504,6 +515,8 @@ def wrapper_discipline(C, R, cfg, state_adts, rule):
     for fn in F.raw['fns']:
         if fn['path'] in state_fn_adt or fn['kind'] == 'closure':
             continue
+        if fn.get('in_trait') and is_private_helper(F, CG, fn):
+            continue     # a provided method of a private trait: generic over Self, judged in the impls' callers
         if not any(fn['path'].lstrip('<').startswith(m_) for m_ in mods):
             continue
         for path in E.run(fn['path']):
@@ -928,8 +941,12 @@ def slot_discipline(R, E, F, CG, state, rule, writers=('send',), may_take=True):
                 if not loc or fields_of(loc)[-1:] != ('value',) or not (
                         loc[:1] == (('P', 'self'),) and m['path'] in F.alias_fns or '<locked>' in loc):
                     continue
-                if e['k'] == 'write' and not any(t['k'] in ('take', 'replace') and t['loc'] == loc and t.get('ln') == e.get('ln')
-                                                 for t in path.events):
+                # (`slot.insert(v)` / `slot.replace(v)` whose old value is not used is an assignment like `slot = Some(v)`)
+                assigns = e['k'] == 'replace' and e.get('val') not in (None, NONE) and not contains(path.ret, e.get('old')) \
+                    and not any(c_['k'] == 'call' and c_.get('mode') == 'opaque' and any(contains(a_, e.get('old')) for a_ in c_.get('args', ()))
+                                for c_ in path.events)
+                if assigns or (e['k'] == 'write' and not any(t['k'] in ('take', 'replace') and t['loc'] == loc and t.get('ln') == e.get('ln')
+                                                 for t in path.events)):
                     n += 1
                     oldk = E.variant_known(path.facts, e['old']) if e.get('old') is not None else None
                     if e['val'] == NONE and may_take and not (e.get('old') == NONE or oldk == ('eq', 'None')):
